@@ -2,6 +2,7 @@ import Sebuf.Build
 import Sebuf.Lemmas.Ident
 import Sebuf.Lemmas.PropsC13
 import Sebuf.Lemmas.PropName
+import Sebuf.Lemmas.PropsC18
 /-!
 # C13 — everything the generators emit builds: Go compiles and vets, TypeScript loads
 
@@ -152,10 +153,23 @@ def hdrFile : File :=
     generate := true
     messages := [getReq]
     services := [hdrSvc] }
-/-- witness for finding `header_helper_redeclared`: the same header declared on the service and on a
-method; the discipline predicts the defect for go-client's package and none for go-http's. -/
+/-- the same header declared on the service and on a method (entry `go:header_helper_redeclared`,
+fixed by /repo 50d5457): before, one helper per declaration — a duplicate function; now one per name. -/
 theorem w_header_helper_redeclared :
-    "header_helper_redeclared" ∈ goDefects { files := [hdrFile] } "go-client" ∧ goDefects { files := [hdrFile] } "go-http" = [] := by decide
+    headerHelperDefectsBeforeFix { files := [hdrFile] } = ["header_helper_redeclared"] ∧
+    goDefects { files := [hdrFile] } "go-client" = [] ∧ goDefects { files := [hdrFile] } "go-http" = [] ∧
+    clientHelperNames hdrSvc = ["Tenant".toList] ∧ clientHelperNamesBeforeFix hdrSvc = ["Tenant".toList, "Tenant".toList] := by decide
+
+/-- **helper functions are declared once**: for every service, whatever headers it and its methods
+declare (repeated, or colliding after the `X-` prefix is dropped), the emitted helper function
+names are pairwise distinct — no "redeclared in this block". -/
+theorem client_helper_names_distinct (s : Service) : (clientHelperNames s).Nodup :=
+  C18.uniqueFirst_nodup _
+
+/-- and no declared header loses its helper name. -/
+theorem client_helper_names_complete (s : Service) (h : Str)
+    (hh : h ∈ s.headers ++ s.methods.flatMap (·.headers)) : headerNameToFuncName h ∈ clientHelperNames s :=
+  (C18.mem_uniqueFirst _ _).2 (List.mem_map_of_mem hh)
 
 /-- header names that differ only by the `X-` prefix collide as well. -/
 theorem header_func_name_not_injective : headerNameToFuncName "X-Api-Key".toList = headerNameToFuncName "Api-Key".toList := by decide
